@@ -149,6 +149,23 @@ pub fn render_wide(_args: &[String]) -> String {
                 }
             }
         }
+        // two-column progress characters: the wide bar takes the free columns (rounded down to whole cells), never more
+        for (t, rest) in [("{wide_bar}", 0usize), ("{wide_bar} {pos}/{len}", 5), ("[{wide_bar}]", 2)] {
+            let style = ProgressStyle::with_template(t).unwrap().progress_chars("\u{ff03}\u{ff1e}\u{ff0d}");
+            for (pos, len) in [(0u64, 10u64), (5, 10), (10, 10)] {
+                let f = frame(&style, Some(len), pos, "", "", 0, 0, width);
+                tried += 1;
+                let shown = f.lines.get(0).map(|l| text_cols(&l.1)).unwrap_or(0);
+                let _ = rest;
+                // whole cells of two columns: at most one free column stays unused, and the line is never wider than the terminal
+                let want = width as usize;
+                if !(f.lines.len() == 1 && shown <= want && shown + 1 >= want) {
+                    let got: Vec<&str> = f.lines.iter().map(|l| l.1.as_str()).collect();
+                    return format!("{{\"found\": true, \"clause\": \"C13 wide_bar with two-column characters fills the free columns with whole cells and is never wider than the terminal\", \"tried\": {}, \"input\": {{\"template\": {}, \"width\": {}, \"pos\": {}, \"len\": {}, \"expected_columns\": {}, \"rendered\": {}}}, \"rerun\": \"replay render_wide\"}}",
+                        tried, crate::js(t), width, pos, len, want, crate::jlist(&got));
+                }
+            }
+        }
         // a width field whose content is wider than the field, next to a wide element: the line is still exactly as wide as the terminal
         if width >= 40 {
             for (t, m) in [("{msg:8} [{wide_bar}] {pos}/{len}", "downloading"), ("{pos:>1}/{len:1} {wide_bar}|", ""), ("{msg:3}{wide_bar}", "abcdefghij")] {
@@ -296,6 +313,19 @@ pub fn bar_cells(_args: &[String]) -> String {
                     return format!("{{\"found\": true, \"clause\": {}, \"tried\": {}, \"input\": {{\"template\": {}, \"progress_chars\": \"#12345678-\", \"pos\": {}, \"len\": {}, \"rendered\": {}}}, \"rerun\": \"replay bar_cells\"}}",
                         crate::js(&format!("C13 {}", b)), tried, crate::js(&t), pos, len, crate::js(&line));
                 }
+            }
+        }
+    }
+    // an abandoned (finished, visible) bar at a partial position has the same geometry as a running one
+    for chars in ["#>-", "#12345678-"] {
+        let style = ProgressStyle::with_template("{bar:10}").unwrap().progress_chars(chars);
+        for (pos, len) in [(1u64, 4u64), (2, 4), (3, 7), (1, 3)] {
+            let running = frame(&style, Some(len), pos, "", "", 0, 0, 80).lines.get(0).map(|l| l.1.clone()).unwrap_or_default();
+            let abandoned = frame(&style, Some(len), pos, "", "", 0, 1, 80).lines.get(0).map(|l| l.1.clone()).unwrap_or_default();
+            tried += 1;
+            if running != abandoned {
+                return format!("{{\"found\": true, \"clause\": \"C13 one partial cell exactly when the bar is neither empty nor full, whether the bar is running or was abandoned\", \"tried\": {}, \"input\": {{\"template\": \"{{bar:10}}\", \"progress_chars\": {}, \"pos\": {}, \"len\": {}, \"running\": {}, \"abandoned\": {}}}, \"rerun\": \"replay bar_cells\"}}",
+                    tried, crate::js(chars), pos, len, crate::js(&running), crate::js(&abandoned));
             }
         }
     }
